@@ -42,7 +42,17 @@ use barter_instrument::{
     asset::QuoteAsset,
     exchange::{ExchangeId, ExchangeIndex},
     index::IndexedInstruments,
-    instrument::{Instrument, InstrumentIndex},
+    asset::Asset,
+    instrument::{
+        Instrument, InstrumentIndex,
+        kind::{
+            InstrumentKind,
+            future::FutureContract,
+            option::{OptionContract, OptionExercise, OptionKind},
+            perpetual::PerpetualContract,
+        },
+        quote::InstrumentQuoteAsset,
+    },
 };
 use barter_integration::channel::{UnboundedTx, mpsc_unbounded};
 use chrono::{DateTime, TimeZone, Utc};
@@ -131,12 +141,12 @@ impl Ev {
             None => f64::NAN,
         }
     }
-    fn engine_event(&self) -> EngineEvent<DataKind> {
+    fn engine_event(&self, exch: &[(ExchangeId, ExchangeIndex)]) -> EngineEvent<DataKind> {
         let market = |inst: u64, time: i64, kind: DataKind| {
             EngineEvent::Market(MarketStreamEvent::Item(MarketEvent {
                 time_exchange: time_of(time),
                 time_received: time_of(time),
-                exchange: ExchangeId::BinanceSpot,
+                exchange: exch[inst as usize].0,
                 instrument: InstrumentIndex(inst as usize),
                 kind,
             }))
@@ -180,7 +190,7 @@ impl Ev {
             ),
             Ev::Fill { id, inst, time, buy, price, qty, fee } => {
                 EngineEvent::Account(AccountStreamEvent::Item(AccountEvent {
-                    exchange: ExchangeIndex(0),
+                    exchange: exch[*inst as usize].1,
                     kind: AccountEventKind::Trade(Trade {
                         id: TradeId::new(format!("t{id}")),
                         order_id: OrderId::new(format!("o{id}")),
@@ -297,39 +307,133 @@ fn coq_istate(s: &InstrumentState<DefaultInstrumentMarketData>) -> String {
 
 // ---- engine ------------------------------------------------------------------------------------
 
-fn build_engine(n_inst: u64) -> Eng {
-    let names = [("btc", "usdt"), ("eth", "usdt"), ("sol", "usdt"), ("xrp", "usdt")];
-    let mut b = IndexedInstruments::builder();
-    for k in 0..n_inst as usize {
-        let (base, quote) = names[k];
-        b = b.add_instrument(Instrument::spot(
-            ExchangeId::BinanceSpot,
-            format!("binance_spot_{base}_{quote}"),
-            format!("{}{}", base.to_uppercase(), quote.to_uppercase()),
-            Underlying::new(base, quote),
+/// one instrument of the engine: exchange (0 BinanceSpot, 1 Okx, 2 Kraken), kind (0 spot,
+/// 1 perpetual, 2 future, 3 option), contract size, settlement asset = quote asset or another one
+#[derive(Clone, Debug)]
+struct Inst {
+    exch: u64,
+    kind: u64,
+    size: Decimal,
+    settle_quote: bool,
+}
+
+impl Inst {
+    fn spot() -> Inst {
+        Inst { exch: 0, kind: 0, size: Decimal::ONE, settle_quote: true }
+    }
+    fn to_json(&self) -> Value {
+        json!({"exch": self.exch, "kind": self.kind, "size": self.size.to_string(), "settle_quote": self.settle_quote})
+    }
+    fn from_json(v: &Value) -> Inst {
+        Inst {
+            exch: v["exch"].as_u64().unwrap_or(0),
+            kind: v["kind"].as_u64().unwrap_or(0),
+            size: if v["size"].is_null() { Decimal::ONE } else { json_dec(&v["size"]) },
+            settle_quote: v["settle_quote"].as_bool().unwrap_or(true),
+        }
+    }
+    fn coq(&self) -> String {
+        format!("(mkInst {} {} {} {})", n(self.kind as u128), dec_q(self.size), b(self.settle_quote), n(self.exch as u128))
+    }
+}
+
+fn insts_from_json(inp: &Value) -> Vec<Inst> {
+    match inp["insts"].as_array() {
+        Some(a) if !a.is_empty() => a.iter().map(Inst::from_json).collect(),
+        _ => (0..inp["n"].as_u64().unwrap_or(2)).map(|_| Inst::spot()).collect(),
+    }
+}
+
+/// builds the engine; returns it with, per instrument INDEX (the builder sorts and indexes the
+/// instruments itself), the exchange id / index to address events with
+fn build_engine(insts: &[Inst]) -> (Eng, Vec<(ExchangeId, ExchangeIndex)>) {
+    // names share prefixes on purpose
+    let bases = ["btc", "btcd", "bt", "btcusd", "b"];
+    let exchanges = [ExchangeId::BinanceSpot, ExchangeId::Okx, ExchangeId::Kraken];
+    let mut bld = IndexedInstruments::builder();
+    for (k, i) in insts.iter().enumerate() {
+        let base = bases[k % bases.len()];
+        let exchange = exchanges[(i.exch % 3) as usize];
+        let settle: Asset = if i.settle_quote { Asset::from("usdt") } else { Asset::from("usdc") };
+        let expiry = time_of(1_900_000_000_000);
+        let (kind_name, kind) = match i.kind {
+            0 => ("spot", InstrumentKind::Spot),
+            1 => ("perp", InstrumentKind::Perpetual(PerpetualContract { contract_size: i.size, settlement_asset: settle })),
+            2 => ("fut", InstrumentKind::Future(FutureContract { contract_size: i.size, settlement_asset: settle, expiry })),
+            _ => (
+                "opt",
+                InstrumentKind::Option(OptionContract {
+                    contract_size: i.size,
+                    settlement_asset: settle,
+                    kind: OptionKind::Call,
+                    exercise: OptionExercise::European,
+                    expiry,
+                    strike: mk_dec(100, 0),
+                }),
+            ),
+        };
+        bld = bld.add_instrument(Instrument::new(
+            exchange,
+            format!("{}_{base}_usdt_{kind_name}", exchange.as_str()),
+            format!("{}USDT{}", base.to_uppercase(), kind_name.to_uppercase()),
+            Underlying::new(base, "usdt"),
+            InstrumentQuoteAsset::UnderlyingQuote,
+            kind,
             None,
         ));
     }
-    let instruments = b.build();
+    let instruments = bld.build();
+    assert_eq!(instruments.instruments().len(), insts.len(), "instrument specs must be distinct");
+    let exch: Vec<(ExchangeId, ExchangeIndex)> =
+        instruments.instruments().iter().map(|k| (k.value.exchange.value, k.value.exchange.key)).collect();
     let state: State = EngineState::builder(&instruments, DefaultGlobalData::default(), DefaultInstrumentMarketData::default)
         .time_engine_start(time_of(0))
         .trading_state(TradingState::Disabled)
         .build();
-    let (tx, rx) = mpsc_unbounded::<ExecutionRequest>();
-    std::mem::forget(rx); // keep the link open
-    let txs = MultiExchangeTxMap::from_iter([(ExchangeId::BinanceSpot, Some(tx))]);
-    Engine::new(
-        HistoricalClock::new(time_of(0)),
-        state,
-        txs,
-        DefaultStrategy::default(),
-        DefaultRiskManager::default(),
+    let txs = MultiExchangeTxMap::from_iter(instruments.exchanges().iter().map(|e| {
+        let (tx, rx) = mpsc_unbounded::<ExecutionRequest>();
+        std::mem::forget(rx); // keep the link open
+        (e.value, Some(tx))
+    }));
+    (
+        Engine::new(
+            HistoricalClock::new(time_of(0)),
+            state,
+            txs,
+            DefaultStrategy::default(),
+            DefaultRiskManager::default(),
+        ),
+        exch,
     )
 }
 
-fn run_case(n_inst: u64, evs: &[Ev]) -> (String, Vec<String>) {
+/// the instrument as the built engine state holds it (kind, contract size, settlement = quote?,
+/// exchange index), in index order
+fn coq_inst(s: &InstrumentState<DefaultInstrumentMarketData>) -> (String, String) {
+    let (code, name) = match &s.instrument.kind {
+        InstrumentKind::Spot => (0u128, "spot"),
+        InstrumentKind::Perpetual(_) => (1, "perp"),
+        InstrumentKind::Future(_) => (2, "future"),
+        InstrumentKind::Option(_) => (3, "option"),
+    };
+    let size = s.instrument.kind.contract_size();
+    let settle_quote = match s.instrument.kind.settlement_asset() {
+        Some(a) => *a == s.instrument.underlying.quote,
+        None => true,
+    };
+    (
+        format!("(mkInst {} {} {} {})", n(code), dec_q(size), b(settle_quote), n(s.instrument.exchange.0 as u128)),
+        format!("inst_{}_size_{}", name, size.normalize()),
+    )
+}
+
+fn run_case(insts: &[Inst], evs: &[Ev]) -> (String, Vec<String>) {
     let mut tags = vec![];
-    let mut engine = build_engine(n_inst);
+    let (mut engine, exch) = build_engine(insts);
+    let descr: Vec<(String, String)> = engine.state.instruments.0.values().map(coq_inst).collect();
+    for ev in evs {
+        tags.push(format!("{}_{}", if matches!(ev, Ev::Fill { .. }) { "fill_on" } else { "market_on" }, descr[ev.inst() as usize].1));
+    }
     let mut obs = vec![];
     let mut frame_ok = true;
     for ev in evs {
@@ -341,7 +445,7 @@ fn run_case(n_inst: u64, evs: &[Ev]) -> (String, Vec<String>) {
             move || d.price()
         })
         .unwrap_or(None);
-        let audit = engine.process(ev.engine_event());
+        let audit = engine.process(ev.engine_event(&exch));
         let mut exit = None;
         if let EngineAudit::Process(pa) = audit {
             for o in pa.outputs.into_iter() {
@@ -399,7 +503,7 @@ fn run_case(n_inst: u64, evs: &[Ev]) -> (String, Vec<String>) {
     let fin: Vec<String> = engine.state.instruments.0.values().map(coq_istate).collect();
     let coq = format!(
         "(CEngine {} {} {} {} {})",
-        n(n_inst as u128),
+        list(&descr.iter().map(|d| d.0.clone()).collect::<Vec<_>>()),
         list(&evs.iter().map(|e| e.coq()).collect::<Vec<_>>()),
         list(&obs),
         list(&fin),
@@ -408,9 +512,10 @@ fn run_case(n_inst: u64, evs: &[Ev]) -> (String, Vec<String>) {
     (coq, tags)
 }
 
-fn emit(em: &mut Emitter, stream: &'static str, n_inst: u64, evs: &[Ev]) {
+fn emit(em: &mut Emitter, stream: &'static str, insts: &[Inst], evs: &[Ev]) {
     let evs2 = evs.to_vec();
-    let r = catch(move || run_case(n_inst, &evs2));
+    let insts2 = insts.to_vec();
+    let r = catch(move || run_case(&insts2, &evs2));
     let (coq, tags) = match r {
         Ok(x) => x,
         Err(msg) => {
@@ -418,7 +523,7 @@ fn emit(em: &mut Emitter, stream: &'static str, n_inst: u64, evs: &[Ev]) {
             (
                 format!(
                     "(CEngine {} {} [] [] false)",
-                    n(n_inst as u128),
+                    list(&insts.iter().map(|i| i.coq()).collect::<Vec<_>>()),
                     list(&evs.iter().map(|e| e.coq()).collect::<Vec<_>>())
                 ),
                 vec![format!("panic:{}", msg.chars().take(60).collect::<String>())],
@@ -429,7 +534,7 @@ fn emit(em: &mut Emitter, stream: &'static str, n_inst: u64, evs: &[Ev]) {
     let has_market = evs.iter().any(|e| !matches!(e, Ev::Fill { .. }));
     em.emit(Case {
         stream,
-        input: json!({"n": n_inst, "events": evs.iter().map(|e| e.to_json()).collect::<Vec<_>>()}),
+        input: json!({"insts": insts.iter().map(|i| i.to_json()).collect::<Vec<_>>(), "events": evs.iter().map(|e| e.to_json()).collect::<Vec<_>>()}),
         coq,
         nontrivial: has_fill && has_market,
         tags,
@@ -462,8 +567,27 @@ fn gen_l1(r: &mut Rng, inst: u64, time: i64, adv: bool) -> Ev {
     Ev::L1 { inst, time, lt, bid, ask }
 }
 
-fn gen_history(r: &mut Rng, max_len: u64, adv: bool) -> (u64, Vec<Ev>) {
-    let n_inst = 2 + r.below(2);
+/// 2-4 instruments: spot and derivative kinds, contract sizes 1 / 0.001 / 0.01 / 100, settlement in
+/// the quote asset or another one, on up to three exchanges
+fn gen_insts(r: &mut Rng) -> Vec<Inst> {
+    let n = 2 + r.below(3);
+    let sizes = [mk_dec(1, 0), mk_dec(1, 3), mk_dec(1, 2), mk_dec(100, 0)];
+    (0..n)
+        .map(|_| {
+            let kind = r.below(4);
+            Inst {
+                exch: r.below(3),
+                kind,
+                size: if kind == 0 { Decimal::ONE } else { *r.pick(&sizes) },
+                settle_quote: kind == 0 || r.chance(1, 2),
+            }
+        })
+        .collect()
+}
+
+fn gen_history(r: &mut Rng, max_len: u64, adv: bool) -> (Vec<Inst>, Vec<Ev>) {
+    let insts = gen_insts(r);
+    let n_inst = insts.len() as u64;
     let len = 1 + r.below(max_len);
     let mut front = 1_700_000_000_000i64 + r.below(1_000_000) as i64;
     let mut net: Vec<Decimal> = vec![Decimal::ZERO; n_inst as usize];
@@ -541,7 +665,7 @@ fn gen_history(r: &mut Rng, max_len: u64, adv: bool) -> (u64, Vec<Ev>) {
         };
         evs.push(ev);
     }
-    (n_inst, evs)
+    (insts, evs)
 }
 
 /// Exhaustive table: position state (flat / fresh long / fresh short / increased / reduced /
@@ -549,6 +673,17 @@ fn gen_history(r: &mut Rng, max_len: u64, adv: bool) -> (u64, Vec<Ev>) {
 /// trade, older trade, equal-time trade, NaN trade, newer L1 two-sided, newer L1 one-sided, older
 /// L1, candle, increase, reduce, close, flip), on instrument 0 with a bystander instrument 1.
 fn table(em: &mut Emitter) {
+    let i = |exch: u64, kind: u64, m: i64, sc: u32, settle_quote: bool| Inst { exch, kind, size: mk_dec(m, sc), settle_quote };
+    let sets: Vec<Vec<Inst>> = vec![
+        vec![Inst::spot(), Inst::spot()],
+        vec![i(1, 1, 1, 3, false), i(0, 1, 1, 0, true)],
+        vec![i(0, 2, 100, 0, true), Inst::spot()],
+        vec![i(2, 3, 1, 2, false), i(1, 1, 1, 3, true)],
+        vec![i(1, 1, 100, 0, true), i(0, 2, 1, 2, false), Inst::spot()],
+        vec![i(0, 1, 1, 3, true), i(0, 1, 1, 3, false)],
+        vec![i(2, 2, 1, 3, false), i(1, 3, 100, 0, true)],
+    ];
+    let mut case_no = 0usize;
     let f = |id: u64, time: i64, buy: bool, q4: i64, qty: i64, fee: i64| Ev::Fill {
         id,
         inst: 0,
@@ -624,7 +759,11 @@ fn table(em: &mut Emitter) {
                     evs.push(nx.clone());
                     // a closing / follow-up market event so that the state after a fill is refreshed too
                     evs.push(Ev::Other { inst: 0, time: 4000, kind: 0 });
-                    emit(em, "table", 2, &evs);
+                    // the instrument set rotates with the case number so that every position x
+                    // market-data x event class meets spot and derivative instruments
+                    let insts = &sets[case_no % sets.len()];
+                    case_no += 1;
+                    emit(em, "table", insts, &evs);
                 }
             }
         }
@@ -641,18 +780,18 @@ fn main() {
             let (n_rand, n_adv, max_len) = if args.tier == "thorough" { (2500, 800, 80) } else { (170, 60, 30) };
             table(&mut em);
             for _ in 0..n_rand {
-                let (n_inst, evs) = gen_history(&mut r, max_len, false);
-                emit(&mut em, "random", n_inst, &evs);
+                let (insts, evs) = gen_history(&mut r, max_len, false);
+                emit(&mut em, "random", &insts, &evs);
             }
             for _ in 0..n_adv {
-                let (n_inst, evs) = gen_history(&mut r, max_len, true);
-                emit(&mut em, "adversarial", n_inst, &evs);
+                let (insts, evs) = gen_history(&mut r, max_len, true);
+                emit(&mut em, "adversarial", &insts, &evs);
             }
         }
         "exec" => {
             for (inp, stream) in read_inputs(args.input.as_deref().expect("--in")) {
                 let evs: Vec<Ev> = inp["events"].as_array().unwrap().iter().map(Ev::from_json).collect();
-                emit(&mut em, stream_static(&stream), inp["n"].as_u64().unwrap(), &evs);
+                emit(&mut em, stream_static(&stream), &insts_from_json(&inp), &evs);
             }
         }
         m => panic!("unknown mode {m}"),
